@@ -227,8 +227,45 @@ def evaluate(ctx, rng, tier, focus, budget, broken):
                                   "in ring order", o, f"{len(bfs)} cells of the disk (or an error code)",
                                   " ".join(gen.hx(c_) for c_ in seg)[:200]))
                 break
-    ops = ops + bops
-    out = out + bout
+    # very large disks, evaluated in-process by the harness (`diskcheck`: an independent breadth-first search over
+    # gridDisk(k = 1) against gridDisk / gridDiskDistances / gridDiskDistancesSafe).  Radii around the limits of the
+    # narrow integer types (127/128/129, 255/256/257): a scratch array of bytes instead of ints (seeded change C05g)
+    # shows only from k = 257 on, and only where a pentagon forces the safe fallback.
+    big = []
+    for res, bc, k in ((8, 38, 257), (9, 4, 129)):
+        big.append((gen.mkcell(res, bc, [0] * res), k))                       # a pentagon
+    if tier != "quick" or budget > 1:
+        big.append((gen.mkcell(7, 117, [0] * 7), 256))
+        big.append((gen.mkcell(8, 14, [0] * 8), 262))
+        big.append((gen.mkcell(9, 38, [0] * 8 + [3]), 258))                    # a hexagon next to a pentagon
+        big.append((gen.mkcell(8, 20, [3] * 8), 257))                          # far from every pentagon (fast walk)
+        for _ in range(12):
+            res = rng.randrange(6, 12)
+            bc = rng.choice(gen.PENT)
+            ds = [0] * res
+            if rng.random() < 0.6:
+                ds[-1] = rng.randrange(2, 7)
+            if rng.random() < 0.3 and res > 1:
+                ds[-2] = rng.randrange(2, 7)
+            big.append((gen.mkcell(res, bc, gen.fix_pent(bc, ds)), rng.choice([127, 128, 129, 255, 256, 257, 300, 513])))
+    lops = [f"diskcheck {gen.hx(h)} {k}" for h, k in big]
+    lout = ctx.c(lops, tag="bigdisks")
+    big_cells = 0
+    for o, a in zip(lops, lout):
+        if not ok(a):
+            if not a.startswith("skip"):
+                viol_.append(viol("large disk: maxGridDiskSize failed", o, "success", a))
+            continue
+        parts = [x_.split() for x_ in a[3:].split("|")]
+        nbfs = parts[0][0]
+        big_cells += int(nbfs)
+        want = "ok " + nbfs + " 0" + (" | 0 " + nbfs + " 0 0 0") * (len(parts) - 1)
+        if a != want:
+            viol_.append(viol("large disk differs from the breadth-first ball over gridDisk(k=1) (per function gridDisk | "
+                              "gridDiskDistances | gridDiskDistancesSafe: error, distinct cells, cells outside the ball or "
+                              "with a wrong distance, ball cells missing, duplicates)", o, want, a))
+    ops = ops + bops + lops
+    out = out + bout + lout
     viol_ = [v for v in viol_ if v.get("key") != "ringUnsafe-encloses-pentagons"] + \
             [v for v in viol_ if v.get("key") == "ringUnsafe-encloses-pentagons"]
     return {"evaluations": len(ops) + len(nb.cache), "violations": viol_[:20], "distinct": ops,
@@ -239,4 +276,6 @@ def evaluate(ctx, rng, tier, focus, budget, broken):
 
 
 def replay_verdict(rp, out):
+    if rp["ops"] and rp["ops"][0].startswith("diskcheck"):
+        return out[0] != rp.get("expected")
     return True
